@@ -8,7 +8,7 @@ import gen as G
 
 PROP = 'C03'
 THEOREMS = ['inverse_certificate', 'stationary_certificate', 'hs_rowsum_stationary', 'hs_positive',
-            'aggregation_is_partition', 'hs_refuses_nonergodic', 'hs_labels']
+            'aggregation_is_partition', 'hs_identity_lumping_thm', 'hs_refuses_nonergodic', 'hs_labels']
 CONFIGS = [dict(jit=True)]
 CONFIGS_THOROUGH = [dict(jit=True), dict(jit=False)]
 RULE = ('Markov-structured micro trajectories (2..7 microstates quick, ..8 thorough; 1..3 trajectories; '
